@@ -624,7 +624,10 @@ class Engine:
             if self._alias and name == 'self':
                 name = 'outer_self'
             ty = fn['locals'][i]['ty']
-            if ty['k'] in ('ref', 'ptr'):
+            if ty['k'] == 'ref' and (ty.get('ty') or {}).get('path') == 'std::task::Waker':
+                # a `&Waker` handed down instead of the `&mut Context`: it is the waker of the current poll
+                args.append(('ref', (('cxwaker',),)))
+            elif ty['k'] in ('ref', 'ptr'):
                 args.append(('ref', (('P', name),)))
             elif ty['k'] == 'adt' and ty['path'] == 'std::pin::Pin' and ty['args'] and ty['args'][0]['k'] == 'ref':
                 args.append(('pin', ('ref', (('P', name),))))
